@@ -15,7 +15,8 @@ RULE = ("histories over {constructor kwargs, set valid / wrong type / None / unk
         " ; option sets built directly: suds.options.Options(**kw) and the transport's, value / None / wrong type / unknown name, transport given to the constructor"
         ' ; the credentials set on the client are the ones sent (empty strings included)'
         ' ; tuples among the wrong-typed values; a proxy named only by the environment; clone over a custom transport'
-        ' ; values after real sends; the opener\'s time limit; private defaults')
+        ' ; values after real sends; the opener\'s time limit; private defaults'
+        ' ; invocations through a clone; challenge credentials follow the client; documents fetched under the timeout option')
 ASSUMPTIONS = ["object-valued options (cache, store, plugins...) are compared by class, transports by identity",
                "mutating a default container in place (shared mutable defaults) is outside the operation alphabet"]
 PARTIAL = []
